@@ -9,6 +9,7 @@ var Registry = map[string]func(*core.Ctx){
 	"C05": C05,
 	"C06": C06,
 	"C07": C07,
+	"C08": C08,
 	"C09": C09,
 	"C11": C11,
 	"C12": C12,
